@@ -378,7 +378,7 @@ impl SvgElement {
         if self.name == "use" {
             if let Some(href) = self
                 .local_href()?
-                .filter(|href| extract_elref(href).is_ok())
+                .filter(|href| href.parse::<crate::types::ElRef>().is_ok())
             {
                 let elref = href.parse()?;
                 let el = ctx
@@ -717,9 +717,11 @@ impl SvgElement {
             let href = element
                 .local_href()?
                 .ok_or_else(|| SvgdxError::MissingAttribute("href".to_owned()))?;
-            if element.name == "use" && extract_elref(&href).is_err() {
-                // not an element reference (e.g. a reference into another
-                // document): nothing is known about the target
+            if element.name == "use" && href.parse::<crate::types::ElRef>().is_err() {
+                // not an element reference svgdx can follow (e.g. a reference into
+                // another document, or an id using XML name characters such as '.'
+                // which element references don't allow): nothing is known about
+                // the target
                 break;
             }
             let elref = href.parse()?;
